@@ -76,8 +76,8 @@ Definition obj_bound (cfg : cl_cfg) (s : cl_state) (g : N) (t : ctxn) (D pr : N)
     pub = false /\
     match ctm_kind tm with
     | CtmSleepResend _ => ctm_at tm + rest cfg n + ms + maxPingrespWait + readTimeout <= D
-    | CtmSleepWake _ => ctm_at tm + maxPingrespWait + readTimeout <= D
-    | CtmSleepPingresp _ => ctm_at tm + readTimeout <= D
+    | CtmSleepWake _ => st = CtSleeping /\ ctm_at tm + maxPingrespWait + readTimeout <= D
+    | CtmSleepPingresp _ => st = CtAwaitPingresp /\ ctm_at tm + readTimeout <= D
     | _ => False
     end
   | CxBrokerPub2 _ _ => False
@@ -1125,4 +1125,959 @@ Proof.
   - destruct (H1 s' eq_refl eq_refl) as (G1 & G2 & _). split; [exact G1|]. right. cbn [fst]. apply G2; try assumption; try reflexivity.
     rewrite Hpub. discriminate.
   - split; [exact H2|]. left. cbn [snd]. apply returned_ret_r.
+Qed.
+
+Lemma CallOk_ret' cfg s s' pnd o tt r : cl_objs s' = cl_objs s -> core s' = core s -> SI s -> quiet o ->
+  CallOk cfg s pnd (s', o ++ [CoRet tt (p_id pnd) r]).
+Proof.
+  intros Ho Hc Hsi Hq. core_inj Hc. split.
+  - apply Good_inert; try congruence.
+    + eapply SI_ext; [|exact Hsi]. unfold core. congruence.
+    + intros id t0 r0 Hi. rewrite c_ret_times_app in Hi. destruct Hq as [Hq _]. rewrite Hq in Hi.
+      destruct Hi as [E|[]]. injection E as <- _ _. reflexivity.
+    + rewrite c_exits_app. destruct Hq as [_ Hq]. rewrite Hq. reflexivity.
+  - left. cbn [snd]. rewrite returned_app. unfold returned at 2. cbn. rewrite N.eqb_refl. apply orb_true_r.
+Qed.
+
+Ltac sr_ok cfg s Hsi Hia :=
+  match goal with |- context [start_retry cfg ?X ?c ?k ?ky ?st0 ?p ?bt] =>
+    let E := fresh "E" in let H1 := fresh "H1" in let H2 := fresh "H2" in
+    destruct (start_retry cfg X c k ky st0 p bt) as [[[s' g'] o] ok] eqn:E;
+    destruct (retry_start_Good cfg X s' g' c k ky st0 p o ok bt) as [H1 H2];
+      [eapply SI_ext; [|exact Hsi]; reflexivity|apply (invA_frame false s); [reflexivity..|exact Hia]|exact E|]
+  end.
+
+Lemma do_publish_ok cfg s pnd tit tid qos retain payload : SI s -> InvA false s -> cl_cancelled s = None ->
+  p_pub pnd = (qos =? 1) || (qos =? 2) -> cl_now s <= p_progress pnd ->
+  cl_now s + (if qos =? 2 then 2 * budget cfg else if qos =? 1 then budget cfg else 0) + readTimeout <= p_deadline pnd ->
+  CallOk cfg s pnd (do_publish cfg s (p_id pnd) tit tid qos retain payload).
+Proof.
+  intros Hsi Hia Hca Hpub Hpr HD. unfold do_publish, c_next_mid. cbv zeta.
+  destruct ((qos =? 0) || (qos =? 3)).
+  { match goal with |- context [c_send ?X ?p] => pose proof (quiet_send X p) as Hq; destruct (c_send X p) as [o [|]] end;
+      cbn [fst] in Hq; apply CallOk_ret'; auto. }
+  destruct (qos =? 1) eqn:E1.
+  { apply N.eqb_eq in E1. subst qos. cbn [N.eqb Pos.eqb] in HD.
+    match goal with |- context [start_retry cfg ?X _ _ _ _ _ _] => apply (CallOk_ext cfg s X); [reflexivity|reflexivity|] end.
+    sr_ok cfg s Hsi Hia. destruct ok.
+    - destruct (H1 s' eq_refl eq_refl) as (G1 & G2 & _). split; [exact G1|]. right. cbn [fst]. apply G2; try assumption; try reflexivity.
+      unfold retry_D, readTimeout in *. cbn [N.eqb Pos.eqb andb ct_state_eqb].
+      repeat match goal with |- context [cl_now ?X] => progress change (cl_now X) with (cl_now s) end. lia.
+    - split; [exact H2|]. left. apply returned_ret_r. }
+  destruct (qos =? 2) eqn:E2.
+  { apply N.eqb_eq in E2. subst qos. cbn [N.eqb Pos.eqb] in HD.
+    match goal with |- context [start_retry cfg ?X _ _ _ _ _ _] => apply (CallOk_ext cfg s X); [reflexivity|reflexivity|] end.
+    sr_ok cfg s Hsi Hia. destruct ok.
+    - destruct (H1 s' eq_refl eq_refl) as (G1 & G2 & _). split; [exact G1|]. right. cbn [fst]. apply G2; try assumption; try reflexivity.
+      unfold retry_D, readTimeout in *. cbn [N.eqb Pos.eqb andb ct_state_eqb].
+      repeat match goal with |- context [cl_now ?X] => progress change (cl_now X) with (cl_now s) end. lia.
+    - split; [exact H2|]. left. apply returned_ret_r. }
+  apply (CallOk_ret' cfg s _ pnd []); auto. apply quiet_nil.
+Qed.
+
+Lemma pack_disc0 : len (pack (Disconnect 0)) <= MaxPacketLen.
+Proof. vm_compute. discriminate. Qed.
+
+Ltac pn_lia pnd :=
+  unfold pnd, newp, call_bound, retry_D, readTimeout, maxPingrespWait in *;
+  cbn [p_progress p_deadline p_pub p_id N.eqb Pos.eqb andb ct_state_eqb] in *; lia.
+
+Lemma do_call_ok cfg s id a : wf_cl_cfg cfg -> SI s -> K (fun _ => True) s -> InvA false s -> cl_cancelled s = None ->
+  CallOk cfg s (newp cfg s id a) (do_call cfg s id a) /\
+  (a = AClose -> ExitB cfg (fst (do_call cfg s id a)) (cl_now s + budget cfg + readTimeout)).
+Proof.
+  intros Hcfg Hsi Hk Hia Hca. destruct (si_c2 s Hsi Hca) as (Hwg & Hex & Hcc).
+  assert (Hfresh : cl_objs s !! cl_next_obj s = None).
+  { destruct (cl_objs s !! cl_next_obj s) as [tx|] eqn:Ex; [|reflexivity]. pose proof (ia_lt false s Hia _ _ Ex). lia. }
+  set (pnd := newp cfg s id a).
+  assert (Hret : forall r, CallOk cfg s pnd (s, ret s id r)) by (intros r; apply (CallOk_ret cfg s pnd r Hsi)).
+  assert (Hsimple : forall kind mk, (kind =? 4) = false -> p_pub pnd = false -> cl_now s + budget cfg + readTimeout <= p_deadline pnd ->
+             CallOk cfg s pnd (call_simple cfg s id kind CtNone mk)).
+  { intros kind mk Hk4 Hp HD. apply (call_simple_ok cfg s pnd kind CtNone mk Hsi Hia Hca Hp); [pn_lia pnd|].
+    unfold retry_D. rewrite Hk4. pn_lia pnd. }
+  unfold do_call. destruct a as [|topic|topic qos|tid qos|topic qos retain payload|tid qos retain payload|topic|tid| |ms| |];
+    (split; [|try discriminate]).
+  - (* Connect *)
+    destruct (connect_attempt_facts cfg s id 0 Hcfg Hcc) as (Fo & Fc & Fq).
+    destruct (connect_attempt cfg s id 0) as [s2 o2]. cbn [fst snd] in Fo, Fc, Fq.
+    assert (Hsi2 : SI s2) by (eapply (SI_snoc s s2); [exact Fc|intros _; exact Hcc|lia|cbn; lia|exact Hsi]).
+    unfold core in Fc. injection Fc as F1 F2 F3 F4 F5 F6 F7 F8 F9.
+    assert (Htm' : forall g', tmr s2 g' = tmr s g' ++ (if cl_next_obj s =? g' then [{| ctm_at := cl_now s + k_ctimeout cfg; ctm_seq := cl_next_seq s; ctm_kind := CtmConnect (cl_next_obj s) |}] else [])).
+    { intros g'. apply (tmr_snoc s s2 _ g' F1). }
+    split.
+    + apply (Good_new cfg _ s s2 (cl_next_obj s) (CxConnect id 0) o2); try assumption; try congruence.
+      * intros g' Hn. rewrite Htm'. assert (E' : (cl_next_obj s =? g') = false) by (apply N.eqb_neq; congruence). rewrite E'. apply app_nil_r.
+      * cbn. intros c E. injection E as <-. reflexivity.
+      * destruct Fq as [Fq _]. rewrite Fq. intros ? ? ? [].
+      * apply Fq.
+    + right. cbn [fst]. split; [congruence|]. rewrite F5, Hca. exists (cl_next_obj s), (CxConnect id 0).
+      split; [rewrite Fo; apply lookup_insert|]. split; [reflexivity|].
+      eexists. split; [rewrite Htm', N.eqb_refl, (tmr_nil_fresh s _ Hsi) by lia; reflexivity|].
+      cbn [ctm_kind ctm_at]. split; [reflexivity|]. split; [reflexivity|]. pose proof (crest_0 cfg). pn_lia pnd.
+  - destruct (len topic =? 0); [apply Hret|]. apply Hsimple; [reflexivity|reflexivity|pn_lia pnd].
+  - destruct (len topic =? 0); [apply Hret|]. destruct (is_short_topic topic); (apply Hsimple; [reflexivity|reflexivity|pn_lia pnd]).
+  - apply Hsimple; [reflexivity|reflexivity|pn_lia pnd].
+  - assert (Hp : forall tit tid, CallOk cfg s pnd (do_publish cfg s id tit tid qos retain payload)).
+    { intros tit tid. apply (do_publish_ok cfg s pnd tit tid qos retain payload Hsi Hia Hca); [reflexivity|pn_lia pnd|].
+      unfold pnd, newp, call_bound. cbn [p_deadline]. lia. }
+    destruct (is_short_topic topic); [apply Hp|]. destruct (reg_lookup _ _); [apply Hp|apply Hret].
+  - apply (do_publish_ok cfg s pnd _ _ qos retain payload Hsi Hia Hca); [reflexivity|pn_lia pnd|].
+    unfold pnd, newp, call_bound. cbn [p_deadline]. lia.
+  - destruct (len topic =? 0); [apply Hret|]. destruct (is_short_topic topic); (apply Hsimple; [reflexivity|reflexivity|pn_lia pnd]).
+  - apply Hsimple; [reflexivity|reflexivity|pn_lia pnd].
+  - (* Ping *)
+    sr_ok cfg s Hsi Hia. destruct ok.
+    + destruct (H1 s' eq_refl eq_refl) as (G1 & G2 & _). split; [exact G1|]. right. cbn [fst].
+      apply G2; [reflexivity|intros _; reflexivity|pn_lia pnd|pn_lia pnd|exact Hca].
+    + split; [exact H2|]. left. apply returned_ret_r.
+  - (* Sleep *)
+    destruct (negb _) eqn:Est; [apply Hret|]. unfold c_new_obj. cbv zeta. cbn [cl_st set].
+    destruct (cl_st s) eqn:Ecs; try discriminate Est.
+    + (* Active *)
+      match goal with |- context [c_send ?X ?p] => pose proof (quiet_send X p) as Hq; destruct (c_send X p) as [o [|]] end; cbn [fst] in Hq.
+      * match goal with |- CallOk _ _ _ (?X, _) => set (s2 := X) end.
+        assert (Ho2 : cl_objs s2 = <[cl_next_obj s := CxSleep id CtAwaitDisconnect 0 ms]> (cl_objs s)).
+        { unfold s2, c_arm, c_set_obj. cbn. apply insert_insert. }
+        assert (Hc2 : core s2 = (cl_timers s ++ [{| ctm_at := cl_now s + k_rdelay cfg; ctm_seq := cl_next_seq s; ctm_kind := CtmSleepResend (cl_next_obj s) |}],
+                   cl_next_seq s + 1, cl_now s, cl_last_read s, cl_cancelled s, cl_exited s, cl_waiting_group s, cl_conn_closed s, cl_next_obj s + 1)) by reflexivity.
+        assert (Hsi2 : SI s2) by (eapply (SI_snoc s s2); [exact Hc2|intros _; exact Hcc|lia|cbn; lia|exact Hsi]).
+        assert (F1 : cl_timers s2 = cl_timers s ++ [{| ctm_at := cl_now s + k_rdelay cfg; ctm_seq := cl_next_seq s; ctm_kind := CtmSleepResend (cl_next_obj s) |}]) by reflexivity.
+        assert (F5 : cl_cancelled s2 = cl_cancelled s) by reflexivity. assert (F6 : cl_exited s2 = cl_exited s) by reflexivity.
+        assert (F7 : cl_waiting_group s2 = cl_waiting_group s) by reflexivity. clearbody s2.
+        assert (Htm' : forall g', tmr s2 g' = tmr s g' ++ (if cl_next_obj s =? g' then [{| ctm_at := cl_now s + k_rdelay cfg; ctm_seq := cl_next_seq s; ctm_kind := CtmSleepResend (cl_next_obj s) |}] else [])).
+        { intros g'. apply (tmr_snoc s s2 _ g' F1). }
+        split.
+        -- apply (Good_new cfg _ s s2 (cl_next_obj s) (CxSleep id CtAwaitDisconnect 0 ms) o); try assumption; try congruence.
+           ++ intros g' Hn. rewrite Htm'. assert (E' : (cl_next_obj s =? g') = false) by (apply N.eqb_neq; congruence). rewrite E'. apply app_nil_r.
+           ++ cbn. intros c E. injection E as <-. reflexivity.
+           ++ destruct Hq as [Hq _]. rewrite Hq. intros ? ? ? [].
+           ++ apply Hq.
+        -- right. cbn [fst]. split; [congruence|]. rewrite F5, Hca. exists (cl_next_obj s), (CxSleep id CtAwaitDisconnect 0 ms).
+           split; [rewrite Ho2; apply lookup_insert|]. split; [reflexivity|].
+           eexists. split; [rewrite Htm', N.eqb_refl, (tmr_nil_fresh s _ Hsi) by lia; reflexivity|].
+           cbn [ctm_kind ctm_at]. split; [reflexivity|]. pose proof (rest_0 cfg). pn_lia pnd.
+      * match goal with |- CallOk _ _ _ (c_finish_obj ?X ?g, _) => set (s2 := X) end.
+        assert (Hg2 : cl_objs s2 !! cl_next_obj s = Some (CxSleep id CtNone 0 ms)) by (unfold s2; cbn; apply lookup_insert).
+        destruct (finish_facts s2 _ _ Hg2) as (A & B & C & D & E & F & G & Hh & I & J).
+        split.
+        -- apply Good_inert.
+           ++ apply SI_finish. eapply (SI_mono s s2); try reflexivity; [unfold s2; cbn; lia|exact Hsi].
+           ++ rewrite F. reflexivity.
+           ++ rewrite G. reflexivity.
+           ++ rewrite Hh. reflexivity.
+           ++ rewrite A. unfold s2. cbn. apply delete_insert, Hfresh.
+           ++ rewrite B. unfold s2. cbn. apply filter_none_fresh; [exact Hsi|lia].
+           ++ intros id' tt r Hi. rewrite c_ret_times_app in Hi. destruct Hq as [Hq _]. rewrite Hq in Hi.
+              destruct Hi as [E'|[]]. injection E' as <- _ _. reflexivity.
+           ++ rewrite c_exits_app. destruct Hq as [_ Hq]. rewrite Hq. reflexivity.
+        -- left. apply returned_ret_r.
+    + (* Awake *)
+      match goal with |- CallOk _ _ _ (?X, _) => set (s2 := X) end.
+      assert (Ho2 : cl_objs s2 = <[cl_next_obj s := CxSleep id CtSleeping 0 ms]> (cl_objs s)) by (unfold s2, c_arm, c_set_state, c_set_obj; cbn; apply insert_insert).
+      assert (Hc2 : core s2 = (cl_timers s ++ [{| ctm_at := cl_now s + ms; ctm_seq := cl_next_seq s; ctm_kind := CtmSleepWake (cl_next_obj s) |}],
+                 cl_next_seq s + 1, cl_now s, cl_last_read s, cl_cancelled s, cl_exited s, cl_waiting_group s, cl_conn_closed s, cl_next_obj s + 1)) by reflexivity.
+      assert (Hsi2 : SI s2) by (eapply (SI_snoc s s2); [exact Hc2|intros _; exact Hcc|lia|cbn; lia|exact Hsi]).
+      assert (F1 : cl_timers s2 = cl_timers s ++ [{| ctm_at := cl_now s + ms; ctm_seq := cl_next_seq s; ctm_kind := CtmSleepWake (cl_next_obj s) |}]) by reflexivity.
+      assert (F5 : cl_cancelled s2 = cl_cancelled s) by reflexivity. assert (F6 : cl_exited s2 = cl_exited s) by reflexivity.
+      assert (F7 : cl_waiting_group s2 = cl_waiting_group s) by reflexivity. clearbody s2.
+      assert (Htm' : forall g', tmr s2 g' = tmr s g' ++ (if cl_next_obj s =? g' then [{| ctm_at := cl_now s + ms; ctm_seq := cl_next_seq s; ctm_kind := CtmSleepWake (cl_next_obj s) |}] else [])).
+      { intros g'. apply (tmr_snoc s s2 _ g' F1). }
+      split.
+      * apply (Good_new cfg _ s s2 (cl_next_obj s) (CxSleep id CtSleeping 0 ms) []); try assumption; try congruence.
+        -- intros g' Hn. rewrite Htm'. assert (E' : (cl_next_obj s =? g') = false) by (apply N.eqb_neq; congruence). rewrite E'. apply app_nil_r.
+        -- cbn. intros c E. injection E as <-. reflexivity.
+        -- intros ? ? ? [].
+        -- reflexivity.
+      * right. cbn [fst]. split; [congruence|]. rewrite F5, Hca. exists (cl_next_obj s), (CxSleep id CtSleeping 0 ms).
+        split; [rewrite Ho2; apply lookup_insert|]. split; [reflexivity|].
+        eexists. split; [rewrite Htm', N.eqb_refl, (tmr_nil_fresh s _ Hsi) by lia; reflexivity|].
+        cbn [ctm_kind ctm_at]. split; [reflexivity|]. split; [reflexivity|]. pn_lia pnd.
+  - (* Disconnect *)
+    destruct (cl_st s); try apply Hret;
+      (sr_ok cfg s Hsi Hia; destruct ok;
+       [destruct (H1 (c_set_state s' Disconnected) eq_refl eq_refl) as (G1 & G2 & _); split; [exact G1|]; right; cbn [fst];
+        apply G2; [reflexivity|intros Hp; unfold pnd, newp in Hp; cbn [p_pub] in Hp; discriminate Hp|pn_lia pnd|pn_lia pnd|exact Hca]
+       |split; [exact H2|]; left; apply returned_ret_r]).
+  - (* Close *)
+    assert (Hnc : CallOk cfg s pnd (c_cancel_from_loop s true <| cl_conn_closed := true |>, ret s id ROk)).
+    { destruct (cancel_loop_facts s true true Hca Hsi) as (Csi & _ & Co & Cca & Cex & Cwg & _). split.
+      - refine (Good_cancel cfg _ s _ (cl_now s) _ Hsi Hk Csi Hca _ _ _ _ _ _ _).
+        + exact Cca.
+        + unfold readTimeout. lia.
+        + exact Co.
+        + exact Cex.
+        + exact Cwg.
+        + intros id' tt r [E'|[]]. injection E' as <- _ _. reflexivity.
+        + reflexivity.
+      - left. unfold returned. cbn. rewrite N.eqb_refl. reflexivity. }
+    destruct (cl_st s); try apply Hnc;
+      (sr_ok cfg s Hsi Hia; destruct ok;
+       [destruct (H1 (c_set_state s' Disconnected) eq_refl eq_refl) as (G1 & G2 & _); split; [exact G1|]; right; cbn [fst];
+        apply G2; [reflexivity|intros Hp; unfold pnd, newp in Hp; cbn [p_pub] in Hp; discriminate Hp|pn_lia pnd|pn_lia pnd|exact Hca]
+       |split; [exact H2|]; left; apply returned_ret_r]).
+  - (* Close: the exit deadline *)
+    intros _.
+    assert (Hnc : ExitB cfg (c_cancel_from_loop s true <| cl_conn_closed := true |>) (cl_now s + budget cfg + readTimeout)).
+    { destruct (cancel_loop_facts s true true Hca Hsi) as (_ & _ & _ & Cca & _). intros _. cbn. rewrite Cca. lia. }
+    destruct (cl_st s); try exact Hnc;
+      (sr_ok cfg s Hsi Hia;
+       destruct (start_retry_facts _ _ _ _ _ _ _ _ _ _ _ _ E) as (_ & _ & _ & _ & Hok); specialize (Hok Hcc pack_disc0); subst ok;
+       destruct (H1 (c_set_state s' Disconnected) eq_refl eq_refl) as (_ & _ & G3); cbn [fst]; apply G3; auto).
+Qed.
+
+(* ------------------------------------------------------------------ received packets *)
+Lemma close_bound_kind7 cfg s g t T : close_bound cfg s g t T ->
+  exists call key st n sub, t = CxRetry call 7 key st (Disconnect 0) n sub.
+Proof. intros (call & key & st & n & sub & tm & -> & _). eauto 6. Qed.
+
+Lemma close_bound_now cfg s g t T : SI s -> close_bound cfg s g t T -> cl_now s <= T.
+Proof.
+  intros Hsi (call & key & st & n & sub & tm & _ & Htm & _ & Hb).
+  assert (Hin : In tm (cl_timers s)) by (apply (tmr_in s g tm); rewrite Htm; left; reflexivity).
+  pose proof (si_t1 s Hsi tm Hin). lia.
+Qed.
+
+Section Leaves.
+  Variables (cfg : cl_cfg) (s : cl_state).
+  Hypothesis Hcfg : wf_cl_cfg cfg.
+  Hypothesis Hsi : SI s.
+  Hypothesis Hk : K (fun _ => True) s.
+  Hypothesis Hia : InvA false s.
+  Hypothesis Hca : cl_cancelled s = None.
+
+  Lemma leaf_frame s0 o : cl_objs s0 = cl_objs s -> core s0 = core s -> quiet o -> Good cfg None s (s0, o).
+  Proof. intros Ho Hc Hq. apply Good_frame; assumption. Qed.
+
+  Lemma leaf_complete s0 g t r ic : cl_objs s0 = cl_objs s -> core s0 = core s -> cl_objs s !! g = Some t ->
+    (forall T, close_bound cfg s g t T -> r = ROk \/ r = RNoRetries) ->
+    Good cfg None s (complete cfg s0 g t r ic).
+  Proof.
+    intros Ho Hc Hg Hcl. assert (Hsi0 : SI s0) by (eapply SI_ext; eassumption). core_inj Hc.
+    apply (complete_Good cfg s s0 g t t r ic Hcfg Hsi Hk Hia Hsi0); try congruence.
+    - rewrite Ho. symmetry. apply insert_id, Hg.
+    - intros g' _. apply tmr_ext, Etm.
+    - intros D pr pub Hb. rewrite Enow. eapply obj_bound_now; eassumption.
+    - intros T Hb. split; [reflexivity|]. split; [apply (Hcl T Hb)|]. rewrite Enow. eapply close_bound_now; eassumption.
+  Qed.
+
+  Lemma leaf_err s0 o : cl_objs s0 = cl_objs s -> core s0 = core s -> quiet o -> Good cfg None s (loop_err s0 o).
+  Proof.
+    intros Ho Hc Hq. assert (Hsi0 : SI s0) by (eapply SI_ext; eassumption). core_inj Hc. unfold loop_err.
+    destruct (cancel_loop_facts s0 true false ltac:(congruence) Hsi0) as (_ & Csi & Co & Cca & Cex & Cwg & _).
+    refine (Good_cancel cfg None s _ (cl_now s0) o Hsi Hk Csi Hca Cca _ _ _ _ _ _); try congruence.
+    - unfold readTimeout. lia.
+    - destruct Hq as [Hq _]. rewrite Hq. intros ? ? ? [].
+    - apply Hq.
+  Qed.
+
+  (* a received QoS 2 PUBLISH is remembered *)
+  Lemma leaf_bp_new s0 mid pub o b : cl_objs s0 = cl_objs s -> core s0 = core s -> quiet o ->
+    let s1 := fst (c_new_obj s0 (CxBrokerPub2 mid pub)) <| cl_by_id := b |> in
+    Good cfg None s (s1, o) /\ Good cfg None s (loop_err s1 o).
+  Proof.
+    intros Ho Hc Hq s1. assert (Hsi0 : SI s0) by (eapply SI_ext; eassumption). core_inj Hc.
+    assert (Hfresh : cl_objs s !! cl_next_obj s0 = None).
+    { rewrite Eno. destruct (cl_objs s !! cl_next_obj s) as [tx|] eqn:Ex; [|reflexivity]. pose proof (ia_lt false s Hia _ _ Ex). lia. }
+    assert (Hsi1 : SI s1).
+    { unfold s1, c_new_obj. cbn [fst]. eapply (SI_mono s0); try reflexivity; [cbn; lia|exact Hsi0]. }
+    assert (G1 : Good cfg None s (s1, o)).
+    { refine (Good_new cfg None s s1 (cl_next_obj s0) (CxBrokerPub2 mid pub) o Hsi1 _ _ _ Hfresh _ _ _ _ _).
+      - unfold s1, c_new_obj. cbn. congruence.
+      - unfold s1, c_new_obj. cbn. congruence.
+      - unfold s1, c_new_obj. cbn. congruence.
+      - unfold s1, c_new_obj. cbn. rewrite Ho. reflexivity.
+      - intros g' _. unfold s1, c_new_obj. apply tmr_ext. cbn. exact Etm.
+      - cbn. discriminate.
+      - destruct Hq as [Hq _]. rewrite Hq. intros ? ? ? [].
+      - apply Hq. }
+    split; [exact G1|].
+    assert (Hca1 : cl_cancelled s1 = None) by (unfold s1, c_new_obj; cbn; congruence).
+    destruct (cancel_loop_facts s1 true false Hca1 Hsi1) as (_ & Csi & Co & Cca & Cex & Cwg & _).
+    unfold loop_err. rewrite <- (app_nil_r o).
+    apply (Good_seq cfg None s (s1, o) (c_cancel_from_loop s1 true, [])); [exact G1|]. cbn [fst].
+    refine (Good_cancel cfg None s1 _ (cl_now s1) [] Hsi1 _ Csi Hca1 Cca _ Co Cex Cwg _ _).
+    - unfold s1, c_new_obj. cbn [fst]. apply (K_frame _ (fst (c_new_obj s0 (CxBrokerPub2 mid pub)))); [reflexivity|reflexivity|].
+      apply K_new_obj; [apply (K_frame _ s); [exact Ho|exact Ewg|exact Hk]|discriminate|discriminate].
+    - unfold readTimeout. lia.
+    - intros ? ? ? [].
+    - reflexivity.
+  Qed.
+
+  (* an object of a received QoS 2 PUBLISH is replaced / dropped *)
+  Lemma leaf_bp_set s0 g mid pub mid' pub' o : cl_objs s0 = cl_objs s -> core s0 = core s -> quiet o ->
+    cl_objs s !! g = Some (CxBrokerPub2 mid pub) -> Good cfg None s (c_set_obj s0 g (CxBrokerPub2 mid' pub'), o).
+  Proof.
+    intros Ho Hc Hq Hg. assert (Hsi0 : SI s0) by (eapply SI_ext; eassumption). core_inj Hc.
+    refine (Good_local cfg None s _ g (CxBrokerPub2 mid pub) g (CxBrokerPub2 mid' pub') o _ _ _ _ Hg _ _ eq_refl eq_refl _ _ _ Hq).
+    - eapply SI_ext; [|exact Hsi0]. reflexivity.
+    - exact Eca.
+    - exact Eex.
+    - exact Ewg.
+    - unfold c_set_obj. cbn. rewrite Ho. symmetry. apply insert_delete_insert.
+    - left. reflexivity.
+    - intros g' _ _. apply tmr_ext. exact Etm.
+    - intros _ D pr pub0 (tm & _ & []).
+    - intros _ T Hb. destruct (close_bound_kind7 _ _ _ _ _ Hb) as (? & ? & ? & ? & ? & E). discriminate E.
+  Qed.
+
+  Lemma leaf_bp_finish s0 g mid pub o : cl_objs s0 = cl_objs s -> core s0 = core s -> quiet o ->
+    cl_objs s !! g = Some (CxBrokerPub2 mid pub) -> Good cfg None s (c_finish_obj s0 g, o).
+  Proof.
+    intros Ho Hc Hq Hg. assert (Hsi0 : SI s0) by (eapply SI_ext; eassumption). core_inj Hc.
+    assert (Hg0 : cl_objs s0 !! g = Some (CxBrokerPub2 mid pub)) by congruence.
+    destruct (finish_facts s0 g _ Hg0) as (A & B & C & D & E & F & G & H & I & J).
+    refine (Good_finish cfg s _ g (CxBrokerPub2 mid pub) (CxBrokerPub2 mid pub) ROk o (cl_now s) None Hsi Hk _ Hca _ _ _ Hg eq_refl _ _ _ _ _ _ _ _).
+    - apply SI_finish, Hsi0.
+    - congruence.
+    - congruence.
+    - congruence.
+    - congruence.
+    - intros _ g' Hn. rewrite tmr_finish_other by exact Hn. apply tmr_ext, Etm.
+    - discriminate.
+    - intros tm Hi _. apply (si_t1 s Hsi tm Hi).
+    - intros D0 pr pub0 (tm & _ & []).
+    - intros T Hb. destruct (close_bound_kind7 _ _ _ _ _ Hb) as (? & ? & ? & ? & ? & E'). discriminate E'.
+    - apply Hq.
+    - apply Hq.
+  Qed.
+End Leaves.
+
+Ltac qt := repeat first [apply quiet_nil | assumption | apply quiet_dispatch | apply quiet_app].
+
+Ltac hw :=
+  repeat first
+    [ match goal with H : c_get_id _ _ = Some (_, _) |- _ => apply c_get_id_Some in H; destruct H as [? ?] end
+    | match goal with H : c_get_type _ _ = Some (_, _) |- _ => apply c_get_type_Some in H; destruct H as [? ?] end
+    | match goal with |- context [c_send ?X ?p] =>
+        let Hq := fresh "Hq" in pose proof (quiet_send X p) as Hq; destruct (c_send X p) as [? [|]]; cbn [fst] in Hq end
+    | match goal with |- Good _ _ _ (match ?x with _ => _ end) => destruct x eqn:? end
+    | match goal with |- Good _ _ _ (if ?x then _ else _) => destruct x eqn:? end
+    | match goal with |- Good _ _ _ (let (_, _) := ?x in _) => destruct x eqn:? end
+    | match goal with |- context [if ?c then (set ?f ?v ?X) else ?X] => destruct c end ].
+
+Ltac no_close :=
+  let T := fresh "T" in let Hb := fresh "Hb" in let E := fresh "E" in
+  intros T Hb; destruct (close_bound_kind7 _ _ _ _ _ Hb) as (? & ? & ? & ? & ? & E); discriminate E.
+
+Section HP.
+  Variables (cfg : cl_cfg) (s : cl_state).
+  Hypothesis Hcfg : wf_cl_cfg cfg.
+  Hypothesis Hsi : SI s.
+  Hypothesis Hk : K (fun _ => True) s.
+  Hypothesis Hia : InvA false s.
+  Hypothesis Hca : cl_cancelled s = None.
+
+  Ltac leaf :=
+    first
+      [ apply (leaf_frame cfg s Hsi); [reflexivity|reflexivity|qt]
+      | apply (leaf_err cfg s Hsi Hk Hca); [reflexivity|reflexivity|qt]
+      | eapply (leaf_complete cfg s Hcfg Hsi Hk Hia Hca); [reflexivity|reflexivity|eassumption|first [no_close|intros; left; reflexivity]]
+      | eapply (leaf_bp_set cfg s Hsi); [reflexivity|reflexivity|qt|eassumption]
+      | eapply (leaf_bp_finish cfg s Hsi Hk Hca); [reflexivity|reflexivity|qt|eassumption] ].
+
+  Definition simple_pkt (p : packet) : bool :=
+    match p with Pubrec _ | Disconnect _ => false | _ => true end.
+
+  Lemma handle_simple_Good p : simple_pkt p = true -> Good cfg None s (handle_packet cfg s p).
+  Proof.
+    intros Hp. unfold handle_packet. destruct p; try discriminate Hp; cbv zeta; try (hw; leaf).
+    (* Publish *)
+    destruct (qos =? 0); [hw; leaf|]. destruct (qos =? 1); [hw; leaf|]. destruct (qos =? 2); [|leaf].
+    destruct (c_get_id s mid) as [[g t]|] eqn:Eg; [hw; leaf|].
+    unfold c_new_obj. cbv beta iota zeta.
+    match goal with |- context [c_send ?X ?q] =>
+      pose proof (quiet_send X q) as Hq; destruct (c_send X q) as [o [|]]; cbn [fst] in Hq end.
+    - exact (proj1 (leaf_bp_new cfg s Hsi Hk Hia Hca s mid _ o _ eq_refl eq_refl Hq)).
+    - exact (proj2 (leaf_bp_new cfg s Hsi Hk Hia Hca s mid _ o _ eq_refl eq_refl Hq)).
+  Qed.
+
+  (* ---- DISCONNECT *)
+  Lemma handle_disconnect_Good d :
+    Good cfg None s (handle_packet cfg s (Disconnect d)) /\
+    (cl_by_type s !! TY_DISCONNECT = None -> ExitB cfg (fst (handle_packet cfg s (Disconnect d))) (cl_now s + readTimeout)).
+  Proof.
+    unfold handle_packet. destruct (cl_by_type s !! TY_DISCONNECT) as [g|] eqn:Hslot.
+    - split; [|discriminate]. destruct (cl_objs s !! g) as [t|] eqn:Hg; [|leaf].
+      destruct t as [call att|call kind key st data n sub|call st n ms|mid pub']; try leaf.
+      + hw; leaf.
+      + destruct (negb (ct_state_eqb st CtAwaitDisconnect)) eqn:Est; [leaf|]. apply negb_false_iff, ct_state_eqb_eq in Est. subst st.
+        cbv zeta.
+        assert (Hlt : g < cl_next_obj s) by (eapply (ia_lt false s Hia), Hg).
+        set (s' := c_arm (c_set_state (c_set_obj (c_disarm s g) g (CxSleep call CtSleeping n ms)) Asleep) (CtmSleepWake g) ms).
+        assert (Htg : tmr s' g = [{| ctm_at := cl_now s + ms; ctm_seq := cl_next_seq s; ctm_kind := CtmSleepWake g |}]).
+        { unfold s'. rewrite tmr_arm_same by reflexivity.
+          rewrite (tmr_ext (c_disarm s g) (c_set_state (c_set_obj (c_disarm s g) g (CxSleep call CtSleeping n ms)) Asleep) g eq_refl), tmr_disarm_same. reflexivity. }
+        refine (Good_local cfg None s s' g (CxSleep call CtAwaitDisconnect n ms) g (CxSleep call CtSleeping n ms) [] _ eq_refl eq_refl eq_refl Hg _ _ eq_refl eq_refl _ _ _ quiet_nil).
+        * unfold s'. apply SI_arm; [|exact Hlt]. eapply SI_ext; [|apply (SI_disarm s g Hsi)]. reflexivity.
+        * unfold s', c_arm, c_set_state, c_set_obj, c_disarm. cbn. symmetry. apply insert_delete_insert.
+        * left. reflexivity.
+        * intros g' Hn _. unfold s'. rewrite tmr_arm_other by (cbn; congruence).
+          rewrite (tmr_ext (c_disarm s g) (c_set_state (c_set_obj (c_disarm s g) g (CxSleep call CtSleeping n ms)) Asleep) g' eq_refl). apply tmr_disarm_other, Hn.
+        * intros _ D pr pub (tm & Htm & Hp & Hb). eexists. split; [exact Htg|]. split; [exact Hp|]. cbn [ctm_kind ctm_at].
+          assert (Hin : In tm (cl_timers s) /\ ctimer_obj (ctm_kind tm) = g) by (apply (tmr_in s g tm); rewrite Htm; left; reflexivity).
+          destruct Hin as [Hin Hobj]. pose proof (si_t1 s Hsi tm Hin) as Hnow.
+          destruct (ctm_kind tm) as [g1|g1|g1|g1|g1] eqn:Ek; try contradiction.
+          -- split; [reflexivity|]. unfold maxPingrespWait, readTimeout in *. lia.
+          -- destruct Hb as [Hb _]. discriminate Hb.
+          -- destruct Hb as [Hb _]. discriminate Hb.
+        * intros _ T Hb. destruct (close_bound_kind7 _ _ _ _ _ Hb) as (? & ? & ? & ? & ? & E). discriminate E.
+    - (* unsolicited *)
+      assert (Hsi0 : SI (c_set_state s Disconnected)) by (eapply SI_ext; [|exact Hsi]; reflexivity).
+      destruct (cancel_loop_facts (c_set_state s Disconnected) false false Hca Hsi0) as (_ & Csi & Co & Cca & Cex & Cwg & _).
+      split.
+      + refine (Good_cancel cfg None s _ (cl_now s) [] Hsi Hk Csi Hca Cca _ Co Cex Cwg _ _).
+        * unfold readTimeout. lia.
+        * intros ? ? ? [].
+        * reflexivity.
+      + intros _ _. cbn [fst]. rewrite Cca. cbn. lia.
+  Qed.
+End HP.
+
+(* ------------------------------------------------------------------ PUBREC: progress of a QoS 2 publish *)
+Definition upd_pubrec (s : cl_state) (mid : N) (p : pending) : pending :=
+  match pub_exchange s (p_id p) with
+  | Some (key, CtAwaitPubrec) =>
+    if key =? mid then {| p_id := p_id p; p_deadline := p_deadline p; p_progress := cl_now s; p_over := p_over p; p_pub := p_pub p |} else p
+  | _ => p
+  end.
+
+Definition set_pr (p : pending) (pr : N) : pending :=
+  {| p_id := p_id p; p_deadline := p_deadline p; p_progress := pr; p_over := p_over p; p_pub := p_pub p |}.
+
+Lemma upd_pubrec_cases s mid p : upd_pubrec s mid p = p \/ upd_pubrec s mid p = set_pr p (cl_now s).
+Proof.
+  unfold upd_pubrec. destruct (pub_exchange s (p_id p)) as [[key st]|]; [|left; reflexivity].
+  destruct st; try (left; reflexivity). destruct (key =? mid); [right|left]; reflexivity.
+Qed.
+
+Lemma obj_bound_pr_mono cfg s g t D pr pr' pub : pr <= pr' -> obj_bound cfg s g t D pr pub -> obj_bound cfg s g t D pr' pub.
+Proof.
+  intros Hle (tm & Htm & Hb). exists tm. split; [exact Htm|].
+  destruct t as [call att|call kind key st data n sub|call st n ms|mid pub']; try exact Hb.
+  destruct Hb as (A & B & C & D'). repeat split; try assumption. lia.
+Qed.
+
+Lemma Backed_pr_mono cfg s p pr' : p_progress p <= pr' -> Backed cfg s p -> Backed cfg s (set_pr p pr').
+Proof.
+  intros Hle [H1 H2]. split; [exact H1|]. destruct (cl_cancelled s); [exact H2|].
+  destruct H2 as (g & t & Hg & Hc & Hb). exists g, t. split; [exact Hg|]. split; [exact Hc|].
+  cbn [set_pr p_deadline p_progress p_pub]. eapply obj_bound_pr_mono; eassumption.
+Qed.
+
+(* what a whole step establishes (ex: the id of the call being started) *)
+Record GoodU (cfg : cl_cfg) (ex : option N) (upd : pending -> pending) (s : cl_state) (r : CR) : Prop := {
+  gu_si : SI (fst r);
+  gu_b : forall p, Backed cfg s p -> p_progress p <= cl_now s -> Some (p_id p) <> ex ->
+           RetT p (snd r) /\ RetP cfg p (snd r) /\ (Backed cfg (fst r) (upd p) \/ returned (snd r) (p_id p) = true);
+  gu_x : forall T, ExitB cfg s T -> ExitB cfg (fst r) T /\ (forall te, In te (c_exits (snd r)) -> te <= T);
+  gu_e : cl_exited (fst r) = true -> cl_exited s = true \/ c_exits (snd r) <> [] }.
+
+Lemma Good_GoodU cfg ex s r : Good cfg ex s r -> GoodU cfg ex (fun p => p) s r.
+Proof.
+  intros [G1 G2 G3 G4 G5]. split; [exact G1| |exact G4|exact G5].
+  intros p Hb _ Hex. destruct (G2 p Hb Hex) as (A & B & [C|[C _]]); auto.
+Qed.
+
+Section Pubrec.
+  Variables (cfg : cl_cfg) (s : cl_state).
+  Hypothesis Hcfg : wf_cl_cfg cfg.
+  Hypothesis Hsi : SI s.
+  Hypothesis Hk : K (fun _ => True) s.
+  Hypothesis Hia : InvA false s.
+  Hypothesis Hca : cl_cancelled s = None.
+
+  Lemma GoodU_idle mid : GoodU cfg None (upd_pubrec s mid) s (s, []).
+  Proof.
+    split; cbn [fst snd].
+    - exact Hsi.
+    - intros p Hb Hpr _. split; [apply RetT_nil|]. split; [apply RetP_nil|]. left.
+      destruct (upd_pubrec_cases s mid p) as [->| ->]; [exact Hb|apply Backed_pr_mono; assumption].
+    - intros T Hx. split; [exact Hx|intros te []].
+    - intros He. left. exact He.
+  Qed.
+
+  Lemma pack_pubrel mid : len (pack (Pubrel mid)) <= MaxPacketLen.
+  Proof. vm_compute. discriminate. Qed.
+
+  Lemma handle_pubrec_GoodU mid :
+    GoodU cfg None (upd_pubrec s mid) s (handle_packet cfg s (Pubrec mid)) /\
+    cl_cancelled (fst (handle_packet cfg s (Pubrec mid))) = None.
+  Proof.
+    destruct (si_c2 s Hsi Hca) as (Hwg & Hex & Hcc).
+    unfold handle_packet. destruct (c_get_id s mid) as [[g t]|] eqn:Eg; [|split; [apply GoodU_idle|exact Hca]].
+    apply c_get_id_Some in Eg. destruct Eg as [Hslot Hg].
+    destruct t as [call att|call kind key st data n sub|call st n ms|mid' pub']; try (split; [apply GoodU_idle|exact Hca]).
+    destruct (N.eq_dec kind 4) as [->|Hk4].
+    2:{ assert (E : forall (A : Type) (a b : A), match kind with 4 => a | _ => b end = b).
+        { intros A a b. destruct kind as [|[[|[]|]|[[]|[]|]|]]; try reflexivity. contradiction Hk4. reflexivity. }
+        rewrite E. split; [apply GoodU_idle|exact Hca]. }
+    destruct (negb (ct_state_eqb st CtAwaitPubrec)) eqn:Est; [split; [apply GoodU_idle|exact Hca]|].
+    apply negb_false_iff, ct_state_eqb_eq in Est. subst st. cbv zeta.
+    destruct (ia_id false s Hia mid g Hslot) as (t1 & Ht1 & Hkey). rewrite Hg in Ht1. injection Ht1 as <-.
+    cbn [id_key N.eqb Pos.eqb orb] in Hkey. injection Hkey as ->.
+    set (t' := CxRetry call 4 mid CtAwaitPubcomp (Pubrel mid) 0 sub).
+    set (s2 := c_arm (c_disarm (c_set_obj s g t') g) (CtmRetry g) (k_rdelay cfg)).
+    rewrite (c_send_ok s2 (Pubrel mid) Hcc (pack_pubrel mid)). cbn [fst snd].
+    split; [|exact Hca].
+    assert (Hlt : g < cl_next_obj s) by (eapply (ia_lt false s Hia), Hg).
+    assert (Htg : tmr s2 g = [{| ctm_at := cl_now s + k_rdelay cfg; ctm_seq := cl_next_seq s; ctm_kind := CtmRetry g |}]).
+    { unfold s2. rewrite tmr_arm_same by reflexivity. rewrite tmr_disarm_same. reflexivity. }
+    assert (Hto : forall g', g' <> g -> tmr s2 g' = tmr s g').
+    { intros g' Hn. unfold s2. rewrite tmr_arm_other by (cbn; congruence). rewrite tmr_disarm_other by exact Hn. reflexivity. }
+    assert (Ho2 : cl_objs s2 = <[g := t']> (cl_objs s)) by reflexivity.
+    assert (Hl2 : forall g' tx, g' <> g -> cl_objs s !! g' = Some tx -> cl_objs s2 !! g' = Some tx).
+    { intros g' tx Hn Hx. rewrite Ho2, lookup_insert_ne by congruence. exact Hx. }
+    split; cbn [fst snd].
+    - unfold s2. apply SI_arm; [|exact Hlt]. apply SI_disarm. eapply SI_ext; [|exact Hsi]. reflexivity.
+    - intros p [Hb1 Hb2] Hpr _. split; [apply quiet_RetT; split; reflexivity|]. split; [apply quiet_RetP; split; reflexivity|]. left.
+      rewrite Hca in Hb2. destruct Hb2 as (gp & tp & Hgp & Hcp & Hbp).
+      split; [exact Hb1|]. change (cl_cancelled s2) with (cl_cancelled s). rewrite Hca.
+      destruct (N.eq_dec gp g) as [->|Hn].
+      + rewrite Hg in Hgp. injection Hgp as <-. cbn [call_of] in Hcp. injection Hcp as Hcp.
+        assert (Hupd : upd_pubrec s mid p = set_pr p (cl_now s)).
+        { unfold upd_pubrec. change (pub_exchange s (p_id p)) with
+            (match mine_list s (p_id p) with (_, CxRetry _ _ key st _ _ _) :: _ => Some (key, st) | _ => None end).
+          destruct (mine_list_cases s g _ (p_id p) Hk Hg ltac:(cbn; congruence)) as [E|E].
+          - exfalso. assert (Hin : (g, CxRetry call 4 mid CtAwaitPubrec data n sub) ∈ mine_list s (p_id p)).
+            { apply elem_of_lfilter. split; [apply elem_of_map_to_list, Hg|]. cbn. rewrite Hcp, N.eqb_refl. reflexivity. }
+            rewrite E in Hin. inversion Hin.
+          - rewrite E, N.eqb_refl. reflexivity. }
+        rewrite Hupd. exists g, t'. split; [rewrite Ho2; apply lookup_insert|]. split; [cbn; congruence|].
+        destruct Hbp as (tm & Htm & Hb). eexists. split; [exact Htg|]. cbn [ctm_kind ctm_at set_pr p_deadline p_progress p_pub t'].
+        destruct Hb as (_ & Hp & _ & HD). cbn [N.eqb Pos.eqb andb ct_state_eqb] in HD.
+        assert (Hin : In tm (cl_timers s)) by (apply (tmr_in s g tm); rewrite Htm; left; reflexivity).
+        pose proof (si_t1 s Hsi tm Hin) as Hnow. pose proof (rest_0 cfg).
+        split; [reflexivity|]. split; [intros _; reflexivity|]. cbn [N.eqb Pos.eqb andb ct_state_eqb]. split; lia.
+      + assert (Hb' : Backed cfg s2 p).
+        { split; [exact Hb1|]. change (cl_cancelled s2) with (cl_cancelled s). rewrite Hca. exists gp, tp.
+          split; [apply Hl2; assumption|]. split; [exact Hcp|]. eapply obj_bound_tmr; [apply Hto, Hn|exact Hbp]. }
+        destruct (upd_pubrec_cases s mid p) as [->| ->].
+        * destruct Hb' as [_ Hb']. change (cl_cancelled s2) with (cl_cancelled s) in Hb'. rewrite Hca in Hb'. exact Hb'.
+        * apply (Backed_pr_mono cfg s2 p (cl_now s) Hpr) in Hb'. destruct Hb' as [_ Hb'].
+          change (cl_cancelled s2) with (cl_cancelled s) in Hb'. rewrite Hca in Hb'. exact Hb'.
+    - intros T Hx. split; [|intros te []]. unfold ExitB in *. change (cl_cancelled s2) with (cl_cancelled s).
+      change (cl_exited s2) with (cl_exited s). intros He. specialize (Hx He). rewrite Hca in *.
+      destruct Hx as (gx & tx & Hgx & Hbx). destruct (N.eq_dec gx g) as [->|Hn].
+      + rewrite Hg in Hgx. injection Hgx as <-. destruct (close_bound_kind7 _ _ _ _ _ Hbx) as (? & ? & ? & ? & ? & E). discriminate E.
+      + exists gx, tx. split; [apply Hl2; assumption|]. eapply close_bound_tmr; [apply Hto, Hn|exact Hbx].
+    - intros He. left. exact He.
+  Qed.
+End Pubrec.
+
+(* ------------------------------------------------------------------ timers fire *)
+Lemma c_min_timer_spec l tm : c_min_timer l = Some tm -> In tm l /\ forall u, In u l -> ctm_at tm <= ctm_at u.
+Proof.
+  revert tm. induction l as [|t l IH]; intros tm H; [discriminate|]. cbn [c_min_timer] in H.
+  destruct (c_min_timer l) as [u0|] eqn:E.
+  - destruct (IH u0 eq_refl) as [Hin Hmin]. destruct (c_earlier t u0) eqn:Ee; injection H as <-.
+    + split; [left; reflexivity|]. intros u [<-|Hu]; [lia|]. specialize (Hmin u Hu). unfold c_earlier in Ee. lia.
+    + split; [right; exact Hin|]. intros u [<-|Hu]; [|apply Hmin, Hu]. unfold c_earlier in Ee. lia.
+  - injection H as <-. destruct l; [|cbn in E; destruct (c_min_timer l); [destruct (c_earlier _ _)|]; discriminate].
+    split; [left; reflexivity|]. intros u [<-|[]]. lia.
+Qed.
+
+Lemma seq_unique l (tm u : ctimer) : List.NoDup (map ctm_seq l) -> In tm l -> In u l -> ctm_seq u = ctm_seq tm -> u = tm.
+Proof.
+  induction l as [|x l IH]; intros Hnd Ht Hu E; [destruct Ht|]. cbn [map] in Hnd. inversion Hnd as [|? ? Hx Hl]; subst.
+  destruct Ht as [->|Ht]; destruct Hu as [->|Hu]; [reflexivity| | |apply IH; assumption].
+  - exfalso. apply Hx. rewrite <- E. apply in_map, Hu.
+  - exfalso. apply Hx. rewrite E. apply in_map, Ht.
+Qed.
+
+Lemma filter_filter_id {A} (f h : A -> bool) l : (forall u, In u l -> f u = true -> h u = true) ->
+  List.filter f (List.filter h l) = List.filter f l.
+Proof.
+  induction l as [|x l IH]; intros H; [reflexivity|]. cbn [List.filter].
+  destruct (h x) eqn:Eh.
+  - cbn [List.filter]. destruct (f x); [f_equal|]; apply IH; intros u Hu; apply H; right; exact Hu.
+  - destruct (f x) eqn:Ef; [rewrite (H x ltac:(left; reflexivity) Ef) in Eh; discriminate|]. apply IH. intros u Hu. apply H. right. exact Hu.
+Qed.
+
+Definition fire_pre (s : cl_state) (tm : ctimer) : cl_state :=
+  s <| cl_now := ctm_at tm |> <| cl_timers := List.filter (fun u => negb (ctm_seq u =? ctm_seq tm)) (cl_timers s) |>.
+
+Section FirePre.
+  Variables (s : cl_state) (tm : ctimer).
+  Hypothesis Hsi : SI s.
+  Hypothesis Hin : In tm (cl_timers s).
+  Hypothesis Hmin : forall u, In u (cl_timers s) -> ctm_at tm <= ctm_at u.
+  Hypothesis Hbe : forall te, cl_cancelled s = Some te -> cl_exited s = false -> ctm_at tm < te.
+
+  Lemma pre_SI : SI (fire_pre s tm).
+  Proof.
+    destruct Hsi as [H1 H2 H3 H4 H5 H6 H7]. unfold fire_pre. split; cbn.
+    - intros u Hu. apply filter_In in Hu. apply Hmin, Hu.
+    - intros u Hu. apply filter_In in Hu. apply H2, Hu.
+    - apply NoDup_map_filter, H3.
+    - intros u Hu. apply filter_In in Hu. apply H4, Hu.
+    - specialize (H1 tm Hin). lia.
+    - intros te Hc He. specialize (Hbe te Hc He). lia.
+    - exact H7.
+  Qed.
+
+  Lemma pre_tmr_other g' : g' <> ctimer_obj (ctm_kind tm) -> tmr (fire_pre s tm) g' = tmr s g'.
+  Proof.
+    intros Hn. unfold tmr, fire_pre. cbn. apply filter_filter_id. intros u Hu Hf. apply N.eqb_eq in Hf.
+    apply negb_true_iff, N.eqb_neq. intros E. apply Hn. rewrite <- Hf. f_equal. f_equal.
+    eapply seq_unique; [apply (si_t3 s Hsi)|exact Hin|exact Hu|exact E].
+  Qed.
+
+  Lemma pre_tmr_same g : tmr s g = [tm] -> tmr (fire_pre s tm) g = [].
+  Proof.
+    intros Ht. unfold tmr, fire_pre. cbn.
+    destruct (List.filter _ (List.filter _ (cl_timers s))) as [|u l] eqn:E; [reflexivity|exfalso].
+    assert (Hu : In u (List.filter (fun tm0 => ctimer_obj (ctm_kind tm0) =? g) (List.filter (fun u => negb (ctm_seq u =? ctm_seq tm)) (cl_timers s))))
+      by (rewrite E; left; reflexivity).
+    apply filter_In in Hu. destruct Hu as [Hu Hg]. apply filter_In in Hu. destruct Hu as [Hu Hs].
+    assert (Hut : In u (tmr s g)) by (apply filter_In; auto). rewrite Ht in Hut. destruct Hut as [<-|[]].
+    rewrite N.eqb_refl in Hs. discriminate.
+  Qed.
+End FirePre.
+
+(* the timer of a backed object *)
+Lemma obj_bound_inv cfg s g t D pr pub tm : obj_bound cfg s g t D pr pub -> In tm (cl_timers s) -> ctimer_obj (ctm_kind tm) = g ->
+  tmr s g = [tm] /\ obj_bound cfg s g t D pr pub.
+Proof.
+  intros Hb Hi Hg. split; [|exact Hb]. destruct Hb as (tm' & Htm & _).
+  assert (H : In tm (tmr s g)) by (apply tmr_in; auto). rewrite Htm in H. destruct H as [->|[]]. exact Htm.
+Qed.
+
+(* only object g may have lost timers, and it was not backed *)
+Lemma Good_untouched cfg s s0 g o :
+  SI s0 -> cl_cancelled s0 = cl_cancelled s -> cl_exited s0 = cl_exited s -> cl_waiting_group s0 = cl_waiting_group s ->
+  cl_objs s0 = cl_objs s -> (forall g', g' <> g -> tmr s0 g' = tmr s g') ->
+  (cl_cancelled s = None -> forall t D pr pub, cl_objs s !! g = Some t -> obj_bound cfg s g t D pr pub -> False) ->
+  (cl_cancelled s = None -> forall t T, cl_objs s !! g = Some t -> close_bound cfg s g t T -> False) ->
+  quiet o -> Good cfg None s (s0, o).
+Proof.
+  intros Hsi0 Eca Eex Ewg Ho Htmr Hnb Hnc Hq.
+  assert (Hhc : forall c, HasCall s c <-> HasCall s0 c).
+  { intros c. unfold HasCall, has_obj, in_wg. rewrite Ho, Eex, Ewg. reflexivity. }
+  split; cbn [fst snd].
+  - exact Hsi0.
+  - intros p Hb _. split; [apply quiet_RetT, Hq|]. split; [apply quiet_RetP, Hq|]. left.
+    revert Hb. unfold Backed, has_obj, in_wg. rewrite Ho, Eex, Ewg, Eca.
+    intros [H1 H2]. split; [exact H1|]. destruct (cl_cancelled s) eqn:Ec; [exact H2|].
+    destruct H2 as (gp & t & Hg & Hcl & Hb). exists gp, t. split; [exact Hg|]. split; [exact Hcl|].
+    destruct (N.eq_dec gp g) as [->|Hn]; [exfalso; eapply (Hnb eq_refl); eassumption|].
+    eapply obj_bound_tmr; [apply Htmr, Hn|exact Hb].
+  - intros c Hn _. split; [apply quiet_NoRet, Hq|]. intros H. apply Hn, Hhc, H.
+  - intros T Hx. split; [|destruct Hq as [_ Hq]; rewrite Hq; intros te []].
+    unfold ExitB in *. rewrite Ho, Eex, Eca. intros He. specialize (Hx He). destruct (cl_cancelled s) eqn:Ec; [exact Hx|].
+    destruct Hx as (gx & t & Hg & Hb). exists gx, t. split; [exact Hg|].
+    destruct (N.eq_dec gx g) as [->|Hn]; [exfalso; eapply (Hnc eq_refl); eassumption|].
+    eapply close_bound_tmr; [apply Htmr, Hn|exact Hb].
+  - intros He. left. congruence.
+Qed.
+
+Section Fire.
+  Variables (cfg : cl_cfg) (s : cl_state) (tm : ctimer).
+  Hypothesis Hcfg : wf_cl_cfg cfg.
+  Hypothesis Hsi : SI s.
+  Hypothesis Hk : K (fun _ => True) s.
+  Hypothesis Hia : InvA false s.
+  Hypothesis Hin : In tm (cl_timers s).
+  Hypothesis Hmin : forall u, In u (cl_timers s) -> ctm_at tm <= ctm_at u.
+  Hypothesis Hbe : forall te, cl_cancelled s = Some te -> cl_exited s = false -> ctm_at tm < te.
+
+  Let s0 := fire_pre s tm.
+  Let g := ctimer_obj (ctm_kind tm).
+
+  Lemma f_si0 : SI s0. Proof. apply pre_SI; assumption. Qed.
+  Lemma f_to g' : g' <> g -> tmr s0 g' = tmr s g'. Proof. apply pre_tmr_other; assumption. Qed.
+
+  Lemma f_backed_tm t D pr pub : obj_bound cfg s g t D pr pub -> tmr s g = [tm].
+  Proof. intros Hb. eapply (obj_bound_inv cfg s g t D pr pub tm); [exact Hb|exact Hin|reflexivity]. Qed.
+  Lemma f_close_tm t T : close_bound cfg s g t T -> tmr s g = [tm].
+  Proof.
+    intros (call & key & st & n & sub & tm' & _ & Htm & _).
+    assert (H : In tm (tmr s g)) by (apply tmr_in; auto). rewrite Htm in H. destruct H as [->|[]]. exact Htm.
+  Qed.
+
+  Lemma fire_idle s1 :
+    cl_objs s1 = cl_objs s0 -> core s1 = core s0 ->
+    (cl_cancelled s = None -> forall t D pr pub, cl_objs s !! g = Some t -> obj_bound cfg s g t D pr pub -> False) ->
+    (cl_cancelled s = None -> forall t T, cl_objs s !! g = Some t -> close_bound cfg s g t T -> False) ->
+    Good cfg None s (s1, []).
+  Proof.
+    intros Ho Hc Hnb Hnc. assert (Hc' := Hc). core_inj Hc'.
+    apply (Good_untouched cfg s s1 g []); try assumption; try congruence.
+    - eapply SI_ext; [exact Hc|apply f_si0].
+    - intros g' Hn. rewrite (tmr_ext s0 s1 g' Etm). apply f_to, Hn.
+    - apply quiet_nil.
+  Qed.
+
+  Lemma fire_complete s1 t t1 r :
+    cl_objs s !! g = Some t -> cl_objs s1 = <[g := t1]> (cl_objs s) -> core s1 = core s0 ->
+    call_of t1 = call_of t -> dcall t1 = dcall t ->
+    (forall now D pr pub, Vt cfg t now D pr pub -> Vt cfg t1 now D pr pub) ->
+    (cl_cancelled s = None -> forall T, close_bound cfg s g t T -> t1 = t /\ (r = ROk \/ r = RNoRetries)) ->
+    Good cfg None s (complete cfg s1 g t1 r false).
+  Proof.
+    intros Hg Ho Hc Hcall Hdc Hvt Hcl. assert (Hc' := Hc). core_inj Hc'.
+    assert (Hsi1 : SI s1) by (eapply SI_ext; [exact Hc|apply f_si0]).
+    destruct (cl_cancelled s) as [te|] eqn:Hca.
+    - apply (complete_Good_c cfg s s1 g t t1 r false te Hsi1 Hca); try assumption; congruence.
+    - apply (complete_Good cfg s s1 g t t1 r false Hcfg Hsi Hk Hia Hsi1); try assumption; try congruence.
+      + intros g' Hn. rewrite (tmr_ext s0 s1 g' Etm). apply f_to, Hn.
+      + intros D pr pub Hb. apply Hvt. pose proof (f_backed_tm _ _ _ _ Hb) as Htm.
+        destruct (obj_bound_Vt _ _ _ _ _ _ _ Hb) as (tm' & Htm' & Hv). rewrite Htm in Htm'. injection Htm' as <-.
+        apply Hv. rewrite Enow. cbn. lia.
+      + intros T Hb. destruct (Hcl eq_refl T Hb) as [E1 E2]. split; [exact E1|]. split; [exact E2|].
+        pose proof (f_close_tm _ _ Hb) as Htm. destruct Hb as (call & key & st & n & sub & tm' & _ & Htm' & _ & Hb).
+        rewrite Htm in Htm'. injection Htm' as <-. rewrite Enow. cbn. lia.
+  Qed.
+
+  Lemma fire_rearm s1 t t1 k d o :
+    cl_objs s !! g = Some t -> cl_objs s1 = <[g := t1]> (cl_objs s) -> core s1 = core s0 ->
+    call_of t1 = call_of t -> dcall t1 = dcall t -> ctimer_obj k = g -> quiet o ->
+    (cl_cancelled s = None -> forall D pr pub s'', obj_bound cfg s g t D pr pub ->
+       tmr s'' g = [{| ctm_at := ctm_at tm + d; ctm_seq := cl_next_seq s; ctm_kind := k |}] -> obj_bound cfg s'' g t1 D pr pub) ->
+    (cl_cancelled s = None -> forall T s'', close_bound cfg s g t T ->
+       tmr s'' g = [{| ctm_at := ctm_at tm + d; ctm_seq := cl_next_seq s; ctm_kind := k |}] -> close_bound cfg s'' g t1 T) ->
+    Good cfg None s (c_arm s1 k d, o).
+  Proof.
+    intros Hg Ho Hc Hcall Hdc Hk' Hq Hob Hcb. assert (Hc' := Hc). core_inj Hc'.
+    assert (Hsi1 : SI s1) by (eapply SI_ext; [exact Hc|apply f_si0]).
+    assert (Hlt : g < cl_next_obj s) by (eapply (ia_lt false s Hia), Hg).
+    assert (Htg : forall t' D pr pub, obj_bound cfg s g t' D pr pub \/ (exists T, close_bound cfg s g t' T) ->
+              tmr (c_arm s1 k d) g = [{| ctm_at := ctm_at tm + d; ctm_seq := cl_next_seq s; ctm_kind := k |}]).
+    { intros t' D pr pub Hb. rewrite tmr_arm_same by exact Hk'. rewrite (tmr_ext s0 s1 g Etm).
+      assert (Htm : tmr s g = [tm]) by (destruct Hb as [Hb|[T Hb]]; [eapply f_backed_tm, Hb|eapply f_close_tm, Hb]).
+      unfold s0. rewrite (pre_tmr_same s tm g Htm). rewrite Enow, Esq. reflexivity. }
+    refine (Good_local cfg None s (c_arm s1 k d) g t g t1 o _ _ _ _ Hg _ _ Hcall Hdc _ _ _ Hq).
+    - apply SI_arm; [exact Hsi1|]. rewrite Hk', Eno. exact Hlt.
+    - cbn. exact Eca.
+    - cbn. exact Eex.
+    - cbn. exact Ewg.
+    - cbn. rewrite Ho. symmetry. apply insert_delete_insert.
+    - left. reflexivity.
+    - intros g' Hn _. rewrite tmr_arm_other by congruence. rewrite (tmr_ext s0 s1 g' Etm). apply f_to, Hn.
+    - intros Hca D pr pub Hb. eapply Hob; [exact Hca|exact Hb|]. eapply Htg. left. exact Hb.
+    - intros Hca T Hb. eapply Hcb; [exact Hca|exact Hb|]. eapply (Htg t 0 0 false). right. exists T. exact Hb.
+  Qed.
+End Fire.
+
+Lemma Vt_retry cfg call kind key st data n sub st' data' n' now D pr pub :
+  Vt cfg (CxRetry call kind key st data n sub) now D pr pub -> Vt cfg (CxRetry call kind key st' data' n' sub) now D pr pub.
+Proof. intros H. exact H. Qed.
+Lemma Vt_sleep cfg call st n ms st' n' now D pr pub :
+  Vt cfg (CxSleep call st n ms) now D pr pub -> Vt cfg (CxSleep call st' n' ms) now D pr pub.
+Proof. intros H. exact H. Qed.
+
+Section FireMain.
+  Variables (cfg : cl_cfg) (s : cl_state) (tm : ctimer).
+  Hypothesis Hcfg : wf_cl_cfg cfg.
+  Hypothesis Hsi : SI s.
+  Hypothesis Hk : K (fun _ => True) s.
+  Hypothesis Hia : InvA false s.
+  Hypothesis Hin : In tm (cl_timers s).
+  Hypothesis Hmin : forall u, In u (cl_timers s) -> ctm_at tm <= ctm_at u.
+  Hypothesis Hbe : forall te, cl_cancelled s = Some te -> cl_exited s = false -> ctm_at tm < te.
+
+  (* the fired timer does not belong to the transaction stored under its object *)
+  Ltac mism Ek Fbt Fct Hg :=
+    first
+      [ let t := fresh "t" in let Hgx := fresh "Hgx" in let tm' := fresh "tm'" in let Htm' := fresh "Htm'" in let Hb := fresh "Hb" in
+        let Hb' := fresh "Hb'" in
+        intros _ t D pr pub Hgx Hb;
+        pose proof (Fbt _ _ _ _ Hb) as Htm';
+        destruct Hb as (tm' & Hb & Hb'); rewrite Htm' in Hb; injection Hb as <-; rewrite Ek in Hb';
+        rewrite Hg in Hgx; first [discriminate Hgx | injection Hgx as <-];
+        cbn in Hb'; try contradiction; try (destruct Hb' as [E _]; discriminate E); try (destruct Hb' as [_ []])
+      | let t := fresh "t" in let Hgx := fresh "Hgx" in let Hb := fresh "Hb" in let Htm' := fresh "Htm'" in let Hb' := fresh "Hb'" in
+        intros _ t T Hgx Hb; pose proof (Fct _ _ Hb) as Htm';
+        destruct Hb as (? & ? & ? & ? & ? & tm' & -> & Hb & Hb' & _); rewrite Htm' in Hb; injection Hb as <-; rewrite Ek in Hb';
+        rewrite Hg in Hgx; try discriminate Hgx;
+        try discriminate Hb' ].
+
+  Lemma fire_Good : Good cfg None s (c_fire cfg (fire_pre s tm) (ctm_kind tm)).
+  Proof.
+    unfold c_fire. destruct (ctm_kind tm) as [g|g|g|g|g] eqn:Ek;
+      change (cl_objs (fire_pre s tm) !! g) with (cl_objs s !! g);
+      destruct (cl_objs s !! g) as [t|] eqn:Hg.
+    all: pose proof (fire_idle cfg s tm Hsi Hin Hmin Hbe) as Fidle;
+      pose proof (fire_complete cfg s tm Hcfg Hsi Hk Hia Hin Hmin Hbe) as Fcpl;
+      pose proof (fire_rearm cfg s tm Hsi Hia Hin Hmin Hbe) as Frearm;
+      pose proof (f_backed_tm cfg s tm Hin) as Fbt; pose proof (f_close_tm cfg s tm Hin) as Fct;
+      rewrite Ek in Fidle, Fcpl, Frearm, Fbt, Fct; cbn [ctimer_obj] in Fidle, Fcpl, Frearm, Fbt, Fct.
+    all: try (apply Fidle; [reflexivity|reflexivity|solve [mism Ek Fbt Fct Hg]|solve [mism Ek Fbt Fct Hg]]).
+    all: destruct t as [call att|call kind key st data n sub|call st n ms|mid pub']; try (apply Fidle; [reflexivity|reflexivity|solve [mism Ek Fbt Fct Hg]|solve [mism Ek Fbt Fct Hg]]).
+    - (* connect timeout *)
+      apply (Fcpl _ _ _ RTimeout Hg); try reflexivity.
+      + cbn. symmetry. apply insert_id, Hg.
+      + auto.
+      + intros _ T Hb. destruct (close_bound_kind7 _ _ _ _ _ Hb) as (? & ? & ? & ? & ? & E). discriminate E.
+    - (* retry timer *)
+      destruct (k_rcount cfg <? n + 1) eqn:En.
+      { apply (Fcpl _ _ _ RNoRetries Hg); try reflexivity; [cbn; symmetry; apply insert_id, Hg|auto|]. intros _ T _. auto. }
+      apply N.ltb_ge in En. cbv zeta.
+      set (data' := if (kind =? 1) || (kind =? 3) || (kind =? 4) then c_set_dup data else data).
+      set (t1 := CxRetry call kind key st data' (n + 1) sub).
+      match goal with |- context [c_send ?X ?p] => pose proof (quiet_send X p) as Hq; pose proof (c_send_ok X p) as Hok;
+        destruct (c_send X p) as [o [|]]; cbn [fst] in Hq end.
+      + apply (Frearm (c_set_obj (fire_pre s tm) g t1) _ t1 _ _ _ Hg); try reflexivity; [exact Hq| |].
+        * intros _ D pr pub s'' Hb Htm''.
+          pose proof (Fbt _ _ _ _ Hb) as Htm'.
+          destruct Hb as (tm' & Hb & Hb'). rewrite Htm' in Hb. injection Hb as <-.
+          eexists. split; [exact Htm''|]. cbn [ctm_kind ctm_at]. destruct Hb' as (_ & A & B & C).
+          rewrite (rest_step cfg n En) in B, C. repeat split; try assumption; lia.
+        * intros _ T s'' Hb Htm''.
+          pose proof (Fct _ _ Hb) as Htm'.
+          destruct Hb as (c0 & k0 & st0 & n0 & sub0 & tm' & E & Hb & _ & C). rewrite Htm' in Hb. injection Hb as <-.
+          injection E as -> -> -> -> -> -> ->. exists c0, k0, st0, (n0 + 1), sub0. eexists. split; [reflexivity|].
+          split; [exact Htm''|]. cbn [ctm_kind ctm_at]. split; [reflexivity|]. rewrite (rest_step cfg n0 En) in C. lia.
+      + apply (Fcpl (c_set_obj (fire_pre s tm) g t1) _ t1 RInvalid Hg); try reflexivity.
+        * intros now D pr pub Hv. exact Hv.
+        * intros Hca T Hb. exfalso. destruct (close_bound_kind7 _ _ _ _ _ Hb) as (c0 & k0 & st0 & n0 & sub0 & E).
+          injection E as -> -> -> -> -> -> ->. unfold data' in Hok. cbn [N.eqb Pos.eqb orb] in Hok.
+          specialize (Hok (proj2 (proj2 (si_c2 s Hsi Hca))) pack_disc0). discriminate Hok.
+    - (* sleep: resend DISCONNECT *)
+      destruct (k_rcount cfg <? n + 1) eqn:En.
+      { apply (Fcpl _ _ _ RNoRetries Hg); try reflexivity; [cbn; symmetry; apply insert_id, Hg|auto|].
+        intros _ T Hb. destruct (close_bound_kind7 _ _ _ _ _ Hb) as (? & ? & ? & ? & ? & E). discriminate E. }
+      apply N.ltb_ge in En. cbv zeta. set (t1 := CxSleep call st (n + 1) ms).
+      match goal with |- context [c_send ?X ?p] => pose proof (quiet_send X p) as Hq; destruct (c_send X p) as [o [|]]; cbn [fst] in Hq end.
+      + apply (Frearm (c_set_obj (fire_pre s tm) g t1) _ t1 _ _ _ Hg); try reflexivity; [exact Hq| |].
+        * intros _ D pr pub s'' Hb Htm''.
+          pose proof (Fbt _ _ _ _ Hb) as Htm'.
+          destruct Hb as (tm' & Hb & Hb'). rewrite Htm' in Hb. injection Hb as <-. rewrite Ek in Hb'.
+          eexists. split; [exact Htm''|]. cbn [ctm_kind ctm_at]. destruct Hb' as (A & B).
+          rewrite (rest_step cfg n En) in B. split; [exact A|lia].
+        * intros _ T s'' Hb. destruct (close_bound_kind7 _ _ _ _ _ Hb) as (? & ? & ? & ? & ? & E). discriminate E.
+      + apply (Fcpl (c_set_obj (fire_pre s tm) g t1) _ t1 RInvalid Hg); try reflexivity.
+        * intros now D pr pub Hv. exact Hv.
+        * intros _ T Hb. destruct (close_bound_kind7 _ _ _ _ _ Hb) as (? & ? & ? & ? & ? & E). discriminate E.
+    - (* sleep: wake up *)
+      cbv zeta. set (t1 := CxSleep call CtAwaitPingresp n ms).
+      match goal with |- context [c_send ?X ?p] => pose proof (quiet_send X p) as Hq; destruct (c_send X p) as [o [|]]; cbn [fst] in Hq end.
+      + apply (Frearm (c_set_obj (c_set_state (fire_pre s tm) Awake) g t1) _ t1 _ _ _ Hg); try reflexivity; [exact Hq| |].
+        * intros _ D pr pub s'' Hb Htm''.
+          pose proof (Fbt _ _ _ _ Hb) as Htm'.
+          destruct Hb as (tm' & Hb & Hb'). rewrite Htm' in Hb. injection Hb as <-. rewrite Ek in Hb'.
+          eexists. split; [exact Htm''|]. cbn [ctm_kind ctm_at]. destruct Hb' as (A & _ & B).
+          split; [exact A|]. split; [reflexivity|]. unfold maxPingrespWait in *. lia.
+        * intros _ T s'' Hb. destruct (close_bound_kind7 _ _ _ _ _ Hb) as (? & ? & ? & ? & ? & E). discriminate E.
+      + apply (Fcpl (c_set_obj (c_set_state (fire_pre s tm) Awake) g t1) _ t1 RInvalid Hg); try reflexivity.
+        * intros now D pr pub Hv. exact Hv.
+        * intros _ T Hb. destruct (close_bound_kind7 _ _ _ _ _ Hb) as (? & ? & ? & ? & ? & E). discriminate E.
+    - (* sleep: no PINGRESP *)
+      apply (Fcpl _ _ _ RTimeout Hg); try reflexivity; [cbn; symmetry; apply insert_id, Hg|auto|].
+      intros _ T Hb. destruct (close_bound_kind7 _ _ _ _ _ Hb) as (? & ? & ? & ? & ? & E). discriminate E.
+  Qed.
+End FireMain.
+
+(* ------------------------------------------------------------------ the clock *)
+Ltac now_walk :=
+  repeat first
+    [ progress cbn [fst snd loop_err]
+    | reflexivity
+    | match goal with |- context [c_send ?X ?p] => destruct (c_send X p) as [? [|]] end
+    | match goal with |- cl_now (fst (match ?x with _ => _ end)) = _ => destruct x end
+    | match goal with |- cl_now (fst (if ?x then _ else _)) = _ => destruct x end
+    | match goal with |- cl_now (fst (let (_, _) := ?x in _)) = _ => destruct x end
+    | match goal with |- cl_now (match ?x with _ => _ end) = _ => destruct x end
+    | match goal with |- cl_now (if ?x then _ else _) = _ => destruct x end ].
+
+Lemma finish_now s g : cl_now (c_finish_obj s g) = cl_now s.
+Proof. unfold c_finish_obj. now_walk. Qed.
+Lemma connect_attempt_now cfg s call n : cl_now (fst (connect_attempt cfg s call n)) = cl_now s.
+Proof. unfold connect_attempt, c_new_obj. cbv zeta. now_walk. Qed.
+Lemma cancel_api_now s : cl_now (c_cancel_from_api s) = cl_now s.
+Proof. unfold c_cancel_from_api. now_walk. Qed.
+Lemma cancel_loop_now s e : cl_now (c_cancel_from_loop s e) = cl_now s.
+Proof. unfold c_cancel_from_loop. now_walk. Qed.
+
+Lemma complete_now cfg s g t r ic : cl_now (fst (complete cfg s g t r ic)) = cl_now s.
+Proof.
+  unfold complete. cbv zeta. rewrite <- (finish_now s g). generalize (c_finish_obj s g). intros s1.
+  destruct (cl_cancelled s1); [now_walk|].
+  destruct t; try (cbn [fst]; reflexivity).
+  - destruct r; try (cbn [fst]; reflexivity). destruct (_ <=? _); [apply connect_attempt_now|reflexivity].
+  - destruct (_ =? 6); [destruct r; cbn [fst]; try reflexivity; apply cancel_api_now|].
+    destruct (_ =? 7); [destruct r; cbn [fst]; try reflexivity; apply (cancel_loop_now s1 true)|]. reflexivity.
+Qed.
+
+Lemma start_retry_now cfg s call kind key st p bt : cl_now (fst (fst (fst (start_retry cfg s call kind key st p bt)))) = cl_now s.
+Proof. unfold start_retry, c_new_obj. cbv zeta. destruct bt; destruct (c_send _ _); reflexivity. Qed.
+
+Ltac now_walk2 :=
+  repeat first
+    [ progress cbn [fst snd loop_err]
+    | reflexivity
+    | rewrite complete_now
+    | rewrite connect_attempt_now
+    | rewrite finish_now
+    | exact (cancel_loop_now _ _)
+    | rewrite cancel_loop_now
+    | match goal with |- context [start_retry ?a ?b ?c ?d ?e ?f ?g ?h] =>
+        let H := fresh "H" in pose proof (start_retry_now a b c d e f g h) as H; destruct (start_retry a b c d e f g h) as [[[? ?] ?] [|]]; cbn [fst] in H end
+    | match goal with |- context [c_send ?X ?p] => destruct (c_send X p) as [? [|]] end
+    | match goal with |- cl_now (fst (match ?x with _ => _ end)) = _ => destruct x end
+    | match goal with |- cl_now (fst (if ?x then _ else _)) = _ => destruct x end
+    | match goal with |- cl_now (fst (let (_, _) := ?x in _)) = _ => destruct x end
+    | match goal with |- context [if ?c then (set ?f ?v ?X) else ?X] => destruct c end
+    | assumption ].
+
+Lemma c_fire_now cfg s k : cl_now (fst (c_fire cfg s k)) = cl_now s.
+Proof. unfold c_fire. destruct k; cbv zeta; now_walk2. Qed.
+
+Lemma handle_packet_now cfg s p : cl_now (fst (handle_packet cfg s p)) = cl_now s.
+Proof. unfold handle_packet, c_new_obj. destruct p; cbv zeta; now_walk2. Qed.
+
+Lemma do_call_now cfg s id a : cl_now (fst (do_call cfg s id a)) = cl_now s.
+Proof. unfold do_call, call_simple, do_publish, c_next_mid, c_new_obj. destruct a; cbv zeta; now_walk2. Qed.
+
+(* ------------------------------------------------------------------ the timer loop *)
+Lemma Good_refl cfg s : SI s -> Good cfg None s (s, []).
+Proof. intros H. apply Good_frame; [reflexivity|reflexivity|apply quiet_nil|exact H]. Qed.
+
+Lemma Good_seq' cfg s s1 o1 s2 o2 : Good cfg None s (s1, o1) -> Good cfg None s1 (s2, o2) -> Good cfg None s (s2, o1 ++ o2).
+Proof. intros A B. exact (Good_seq cfg None s (s1, o1) (s2, o2) A B). Qed.
+
+Lemma run_timers_Good cfg t (Hcfg : wf_cl_cfg cfg) : forall fuel s, SI s -> K (fun _ => True) s -> InvA false s -> cl_now s <= t ->
+  Good cfg None s (c_run_timers fuel cfg s t) /\ cl_now (fst (c_run_timers fuel cfg s t)) <= t.
+Proof.
+  induction fuel as [|fuel IH]; intros s Hsi Hk Hia Hnow; cbn [c_run_timers]; [split; [apply Good_refl, Hsi|exact Hnow]|].
+  cbv zeta.
+  assert (Hexit : forall te, (if cl_exited s then None else cl_cancelled s) = Some te -> te <= t ->
+            (forall tm, In tm (cl_timers s) -> te <= ctm_at tm) ->
+            Good cfg None s (c_exit s te) /\ SI (fst (c_exit s te)) /\ K (fun _ => True) (fst (c_exit s te)) /\
+            InvA false (fst (c_exit s te)) /\ cl_now (fst (c_exit s te)) <= t).
+  { intros te Hx Hle Htm. destruct (cl_exited s) eqn:Hex; [discriminate|].
+    pose proof (exit_Good cfg s te Hsi Hx Hex Htm) as G. split; [exact G|]. split; [apply (gd_si _ _ _ _ G)|].
+    split; [apply c_exit_K, Hk|]. split; [apply c_exit_invA, Hia|]. cbn. exact Hle. }
+  destruct (c_min_timer (cl_timers s)) as [tm|] eqn:Emin.
+  - destruct (c_min_timer_spec _ _ Emin) as [Hin Hmin].
+    destruct ((ctm_at tm <=? t) && match (if cl_exited s then None else cl_cancelled s) with Some te => ctm_at tm <? te | None => true end) eqn:Edue.
+    + apply andb_true_iff in Edue. destruct Edue as [Ed Eb]. apply N.leb_le in Ed.
+      assert (Hbe : forall te, cl_cancelled s = Some te -> cl_exited s = false -> ctm_at tm < te).
+      { intros te Hc He. rewrite He, Hc in Eb. apply N.ltb_lt, Eb. }
+      pose proof (fire_Good cfg s tm Hcfg Hsi Hk Hia Hin Hmin Hbe) as G1.
+      change (s <| cl_now := ctm_at tm |> <| cl_timers := List.filter (fun u => negb (ctm_seq u =? ctm_seq tm)) (cl_timers s) |>)
+        with (fire_pre s tm).
+      pose proof (c_fire_now cfg (fire_pre s tm) (ctm_kind tm)) as Hn1.
+      assert (Hk1 : K (fun _ => True) (fst (c_fire cfg (fire_pre s tm) (ctm_kind tm)))).
+      { apply c_fire_K. apply (K_frame _ s); [reflexivity|reflexivity|exact Hk]. }
+      assert (Hia1 : InvA false (fst (c_fire cfg (fire_pre s tm) (ctm_kind tm)))).
+      { apply c_fire_invA. apply (invA_frame false s); [reflexivity|reflexivity|reflexivity|exact Hia]. }
+      destruct (c_fire cfg (fire_pre s tm) (ctm_kind tm)) as [s1 o1]. cbn [fst] in *.
+      destruct (IH s1 (gd_si _ _ _ _ G1) Hk1 Hia1 ltac:(rewrite Hn1; cbn; exact Ed)) as [G2 Hn2].
+      destruct (c_run_timers fuel cfg s1 t) as [s2 o2]. cbn [fst] in *. split; [|exact Hn2].
+      eapply Good_seq'; eassumption.
+    + destruct (if cl_exited s then None else cl_cancelled s) as [te|] eqn:Ex; [|split; [apply Good_refl, Hsi|exact Hnow]].
+      destruct (te <=? t) eqn:Ele; [|split; [apply Good_refl, Hsi|exact Hnow]]. apply N.leb_le in Ele.
+      destruct (Hexit te eq_refl Ele) as (G1 & Hsi1 & Hk1 & Hia1 & Hn1).
+      { intros u Hu. specialize (Hmin u Hu). apply andb_false_iff in Edue. destruct Edue as [E|E].
+        - apply N.leb_gt in E. lia.
+        - apply N.ltb_ge in E. lia. }
+      destruct (c_exit s te) as [s1 o1]. cbn [fst] in *.
+      destruct (IH s1 Hsi1 Hk1 Hia1 Hn1) as [G2 Hn2].
+      destruct (c_run_timers fuel cfg s1 t) as [s2 o2]. cbn [fst] in *. split; [|exact Hn2].
+      eapply Good_seq'; eassumption.
+  - destruct (if cl_exited s then None else cl_cancelled s) as [te|] eqn:Ex; [|split; [apply Good_refl, Hsi|exact Hnow]].
+    destruct (te <=? t) eqn:Ele; [|split; [apply Good_refl, Hsi|exact Hnow]]. apply N.leb_le in Ele.
+    destruct (Hexit te eq_refl Ele) as (G1 & Hsi1 & Hk1 & Hia1 & Hn1).
+    { intros u Hu. destruct (cl_timers s); [destruct Hu|]. cbn in Emin. destruct (c_min_timer l); [destruct (c_earlier _ _)|]; discriminate. }
+    split; [exact G1|exact Hn1].
 Qed.
